@@ -18,6 +18,7 @@ RULE = (
     "list_keys() == expected keys (sorted), every get(k) equals the expected value loaded on its own, list_keys(_include_merge_parent=False) == own keys; the body runs once. "
     "Non-trivial = chain length >= 2 with a key present in both parent and child, or a parent obtained from the cache; distinct by (chain shape, provenance, backend)."
     " Race family (round 5): two threads memoizing two different partition-valued functions through one store, every one-preemption schedule (every 3rd yield point in quick) under C09's deterministic scheduler; each call, made again afterwards, must return its own keys and values."
+    " Round 6: chain levels optionally published under override keys (mostly one and the same key for several levels)."
 )
 ASSUMPTIONS = [
     "a merge parent is always a partition returned by a memento function (a never-serialized parent is rejected by design)",
